@@ -1,4 +1,5 @@
 import NTV.Proofs.Lemmas.OrdProofs
+import NTV.Proofs.Lemmas.OrdCanon
 /-! # C15 — orders as lattices: property theorems about the model `NTV.Ord` (index, discriminant)
 
 An order is its stored basis `A : List (List Rat)` with `Rect n n A` (n rows of length n);
@@ -62,5 +63,14 @@ theorem index_of_unimodular_rebasing (A B : QMat) (n : Nat) (hA : Rect n n A) (h
     index A B = .ok 1 ∨ index A B = .ok (-1) := by
   rw [index_is_det_of_change_of_basis A B n hA hB hdet U hC]
   rcases hU with h | h <;> simp [h]
+
+/-- canonical storage, full: an order built from any ℚ-basis is stored in a form that depends only on
+the ℤ-module — if B = U·A for an integer matrix U with unit determinant (i.e. A and B are bases of the
+same module) then `Order::from_basis` returns the same value for both (so `==` on orders is equality of
+modules); no rank hypothesis is needed -/
+theorem equal_modules_give_equal_orders (A B : QMat) (n : Nat) (hn : 0 < n) (hA : Rect n n A) (hB : Rect n n B)
+    (U : Matrix (Fin n) (Fin n) ℤ) (hU : IsUnit U.det)
+    (hrel : toM n n B = U.map (Int.castRingHom ℚ) * toM n n A) :
+    fromBasis B = fromBasis A := hnfReduce_canonical A B n hn hA hB U hU hrel
 
 end NTV.C15
